@@ -28,7 +28,9 @@ def configs(tier):
     out = []
     for cl, batched, attempts, (script, part) in itertools.product(
             [CLUSTER, CLUSTER_SAME], [False, True], [2, 3], [(S_RR4, "rr"), (S_MIX, "hashed"), (S_TWO, "rr")]):
-        prod = {"acks": 1, "max_req_attempts": attempts, "partitioner": part, "retry_interval": 0.25}
+        # (0.25 s is the library's default interval: the other value tells "configured" from "default")
+        prod = {"acks": 1, "max_req_attempts": attempts, "partitioner": part,
+                "retry_interval": 0.25 if attempts == 2 else 0.4}
         if batched:
             prod.update(batch_send=True, batch_every_n=2, batch_every_b=0, batch_every_t=0)
         out.append({"cluster": cl, "discovery": False, "producer": prod, "script": script, "menu": MENU,
